@@ -378,6 +378,48 @@ def main_c28():
             c.violation("curried-run-differs", {"case": i}, {"mod": bytes(mod).hex(), "curried": r1, "direct": r2})
         c.count("curry_cases")
         c.nontrivial("curry", bytes(curried))
+        # near misses: uncurry is a partial inverse -- whenever it reports (mod, args) for ANY program P, currying
+        # mod with args must give back exactly P. One node of the curried form is replaced at a time (keywords,
+        # the terminating 1, nil terminators, an argument wrapper) and extra elements are appended.
+        ct = walk(curried)
+        subs = [b"", b"\x01", b"\x02", b"\x03", b"\x04", b"\x05", b"\x0c", (b"\x01", b"\x01")]
+
+        def positions(t, path=()):
+            yield path
+            if isinstance(t, tuple):
+                yield from positions(t[0], path + (0,))
+                yield from positions(t[1], path + (1,))
+
+        def replace_at(t, path, new):
+            if not path:
+                return new
+            l, r = t
+            return (replace_at(l, path[1:], new), r) if path[0] == 0 else (l, replace_at(r, path[1:], new))
+
+        pos = [pth for pth in positions(ct) if len(pth) <= 2 * (len(args) + 3)]
+        for _ in range(6):
+            pth = rnd.choice(pos)
+            mutated = replace_at(ct, pth, rnd.choice(subs))
+            if mutated == ct:
+                continue
+            pm = Program.to(mutated)
+            c.evaluations += 1
+            try:
+                m3, a3 = pm.uncurry()
+            except Exception as e:  # noqa
+                c.violation("uncurry-raised", {"case": i}, {"program": R.ser(mutated).hex(), "error": repr(e)})
+                continue
+            if a3 is None:
+                c.count("near_miss_not_reported_as_curried")
+                continue
+            c.count("near_miss_reported_as_curried")
+            try:
+                back = bytes(m3.curry(*a3))
+            except Exception as e:  # noqa
+                back = repr(e).encode()
+            if back != R.ser(mutated):
+                c.violation("uncurry-accepts-a-program-that-curry-does-not-produce", {"case": i},
+                            {"program": R.ser(mutated).hex(), "mod": bytes(m3).hex(), "args": [bytes(x).hex() for x in a3], "curry_of_result": back.hex()[:400]})
     return c.finish()
 
 
